@@ -177,13 +177,42 @@ def trivial(cls):
 CONFIG = Config()
 CONFIG.pid = "C20"
 CONFIG.props_module = "KsiVerif.Props.C20"
-CONFIG.required_theorems = []
+CONFIG.required_theorems = ["scheme_dispatch", "split_render", "compose_parts", "blocking_service_spec", "async_service_spec",
+                             "credentials_do_not_reach_the_url", "credential_precedence"]
 CONFIG.translators = [tables.gen_uri]
 CONFIG.engines = [Engine("c20", ["exec_c20.c"], "drv_c20", gen, trivial=trivial,
                          wraps=["KSI_HttpClient_setAggregator", "KSI_HttpClient_setExtender", "KSI_HttpAsyncClient_setService",
                                 "KSI_FsClient_setAggregator", "KSI_FsClient_setExtender", "KSI_TcpClient_setAggregator",
                                 "KSI_TcpClient_setExtender", "KSI_TcpAsyncClient_setService"])]
-CONFIG.rule = ""
-CONFIG.trusted_base = []
-CONFIG.assumptions = []
+CONFIG.rule = ("op lines from one PRNG (VERIF_SEED): every letter-case variant of 13 scheme spellings (5 recognised, 8 not) with a fixed and "
+               "with random remainders; all combinations of {credentials, host form name/IPv6, port absent/1/65535, path, query, fragment} x "
+               "explicit {none, login, key, both} for 6 schemes; 1500 (thorough 30000) random well-formed URIs; every octet value 1..255 at the "
+               "start / middle / end of each of the 8 components (splitter, and a sample through the services); port boundaries (0, 65535, 65536, "
+               "leading zeros, 30 digits); 40 odd shapes (user-info without ':', '@@', empty host, IPv6 brackets unbalanced, FILE://, tabs, "
+               "octets >= 0x80, '_' in host); random garbage; lengths around the 65535-byte compose buffer. Through KSI_UriSplitBasic, the client's "
+               "uriSplit, KSI_CTX_setAggregator / setExtender and KSI_AsyncService_setEndpoint (signing and extending); observed: status and, "
+               "captured with --wrap at the transport setters, the URL / host+port / path and the login id and key handed over. For URIs written "
+               "from parts the Lean driver also evaluates the grammar-level specification (specBlocking / specAsync). Distinct by op line.")
+CONFIG.trusted_base = [
+    "Lean 4.33.0 kernel; axioms propext, Classical.choice, Quot.sound only (audited per theorem each run; `decide +kernel` over the 256 octet values is kernel evaluation, no extra axiom)",
+    "normal_url_char[] (as compiled: this build is HTTP_PARSER_STRICT=0) and schemeMap[] are regenerated every run from http_parser.c / net.c; "
+    "the translator also checks that getClientByUriScheme still compares with KSI_strcasecmp",
+    "the automaton transcription KsiVerif.Model.Uri (parse_url_char, http_parse_host incl. the ignored return value and the 16-bit field "
+    "offsets, uriSplit, uriCompose as a truncating concatenation, setService, asyncService_setupAsyncClient) is hand-written; tied by harness/exec_c20.c",
+    "snprintf(\"%d\") and strtoul are modelled by `decimal` / `digitsVal` (digitsVal_decimal proves them inverse); strcasecmp by ASCII lower-casing",
+    "the grammar (render, wf) and the expected hand-over (specBlocking, specAsync, route) in KsiVerif.Spec.Uri are read by humans"]
+CONFIG.assumptions = [
+    "observation point = the transport setters (KSI_HttpClient_setAggregator/Extender, KSI_TcpClient_set…, KSI_FsClient_set…, KSI_HttpAsyncClient_setService, "
+    "KSI_TcpAsyncClient_setService), not libcurl / getaddrinfo themselves",
+    "theorems cover URIs of at most 65000 bytes whose fragment does not follow the authority directly (known findings F22, F23 describe the rest)"]
 CONFIG.design_ref = "DESIGN.md section 4, C20"
+CONFIG.technique = "Lean 4 proof that the transcribed URL automaton + split/compose/dispatch meet the grammar-level specification on every well-formed URI; regenerated tables; differential correspondence at the transport setters"
+CONFIG.level_text = ("Kernel-checked for every well-formed URI (any scheme spelling, optional user:key, name / IPv4 / bracketed IPv6 host, port 1..65535, path, "
+                     "query, fragment; up to 65000 bytes; fragment not directly after the authority) and any explicit credentials: uriSplit recovers exactly "
+                     "the parts it was written from (through the transcribed http_parser automaton, host pass and port conversion); scheme recognition over "
+                     "the generated map is exact and case-insensitive for every byte string; the blocking and the asynchronous service hand the transport "
+                     "exactly what the specification says — scheme rewritten, credentials removed from the URL and used as login id / key unless explicit "
+                     "ones are given, host, port, path, query, fragment preserved, file / unknown schemes routed or refused as stated.")
+CONFIG.level_note = ("Trusted: Lean kernel + standard axioms; the hand transcription of the automaton and its differential tie (~2*10^4 cases per run incl. every "
+                     "octet at every position); the wire is observed at the transport setters. Two deviations are recorded as known findings (fragment "
+                     "directly after the authority; URIs above 64 KiB).")
